@@ -76,6 +76,12 @@ Proof.
   - intros Hs Ha. rewrite Ht. now apply traces_after_fresh.
 Qed.
 
+Lemma c05_iat_traces_ascending b b' : 0 <= ib_odfi b -> should_set (ib_opts b) = true ->
+  forallb (fun e => negb (ihas_prefix (ib_odfi b) e)) (ib_entries b) = true ->
+  zlen (ib_entries b) < P7 - 1 ->
+  iat_build T b = (true, b') -> asc 0 (map ie_trace (ib_entries b')).
+Proof. apply iat_build_ascending. Qed.
+
 (* ------------------------------------------------------------------ ADV *)
 
 Lemma c05_adv_build_control b b' : adv_build T b = (true, b') ->
@@ -235,6 +241,13 @@ Example ex_iat_build :
   map ie_a17 (ib_entries ex_ibatch_built) = [[(1, 1); (2, 1)]; []; []] /\
   iat_build T ex_ibatch_built = (true, ex_ibatch_built) /\ odfi_ok (ib_odfi ex_ibatch).
 Proof. vm_compute. repeat split; intros; try discriminate; reflexivity. Qed.
+
+Example ex_iat_ascending :
+  let b := mkib true true 12104288 200 0 (map (fun e => set_itrace e 0) ex_ientries) zero_ctl None in
+  0 <= ib_odfi b /\ should_set (ib_opts b) = true /\
+  forallb (fun e => negb (ihas_prefix (ib_odfi b) e)) (ib_entries b) = true /\ zlen (ib_entries b) < P7 - 1 /\
+  fst (iat_build T b) = true.
+Proof. vm_compute. repeat split; intros; discriminate. Qed.
 
 (* with CustomTraceNumbers the foreign trace number stays, the addenda follow it *)
 Example ex_iat_build_custom :
